@@ -704,6 +704,52 @@ class _StrBox:
         return format(self.s, spec)
 
 
+# ============================================================================ eval / re
+
+COMMON_EXCEPTIONS = (SyntaxError, ValueError, TypeError, NameError, ZeroDivisionError, OverflowError, AttributeError,
+                     KeyError, IndexError, RecursionError)
+
+# canonical source text per exception class of eval (for replays)
+EVAL_WITNESS = {
+    'SyntaxError': '1 +', 'ValueError': "int('x')", 'TypeError': "1 + ''", 'NameError': 'x',
+    'ZeroDivisionError': '1//0', 'OverflowError': '2.0**10000', 'AttributeError': '(1).x', 'KeyError': '{}[1]',
+    'IndexError': '[][0]', 'RecursionError': "(lambda f: f(f))(lambda f: f(f))", 'ArbitraryException': '1//0',
+}
+
+
+def arbitrary_exception(interp, classes=COMMON_EXCEPTIONS, with_arbitrary=True):
+    """One of the given exception classes, or `ArbitraryException` (any other Exception), chosen
+    non-deterministically; its message is an arbitrary string."""
+    from .interp import ArbitraryException
+    classes = list(classes) + ([ArbitraryException] if with_arbitrary else [])
+    cls = classes[interp.st.choose(len(classes))]
+    msg = SStr(interp.st.fresh_str('exception.message'))
+    e = cls.__new__(cls)
+    e.args = (msg,)
+    if issubclass(cls, SyntaxError):
+        e.msg = msg
+    return e
+
+
+@model(builtins.eval)
+def m_eval(interp, args, kwargs):
+    """eval of an arbitrary expression text: any value, or any Exception (not modelled: non-termination,
+    side effects of the expression)."""
+    st = interp.st
+    if st.choose(2) == 1:
+        raise _pyraise(arbitrary_exception(interp))
+    k = st.choose(5)
+    if k == 0:
+        return SInt(st.fresh_int('eval.int'))
+    if k == 1:
+        return SBool(st.fresh_bool('eval.bool'))
+    if k == 2:
+        return SStr(st.fresh_str('eval.str'))
+    if k == 3:
+        return None
+    return OpaqueVal(st.fresh_name('eval.value'))       # a float, a list, a function, ...
+
+
 # ============================================================================ stat
 
 def _stat_models():
